@@ -1254,26 +1254,3 @@ def install_session_hooks(session):
     event.listen(session, "before_flush", bf)
     event.listen(session, "after_flush", af)
     event.listen(session, "after_flush_postexec", afp)
-
-
-def apply_redo(run, op):
-    """'repeating the same work': the operation again, idempotently with respect to what an object that was never
-    persisted still holds in memory (a transient object is not reset by a rollback)"""
-    k = op[0]
-    o = run.objs
-    if k == "append":
-        if o[op[3]] in getattr(o[op[1]], op[2]):
-            return ("ok", None)
-    elif k == "remove":
-        if o[op[3]] not in getattr(o[op[1]], op[2]):
-            return ("ok", None)
-    elif k == "add":
-        if o[op[1]] in run.session:
-            return ("ok", None)
-    elif k == "delete":
-        if o[op[1]] in run.session.deleted:
-            return ("ok", None)
-    elif k == "expunge":
-        if o[op[1]] not in run.session:
-            return ("ok", None)
-    return run.apply(op)
